@@ -104,7 +104,11 @@ StateViol(ev) ==
   \cup Chk("C04_ReleaseWithinLimit",
            released => Pt(id) <= RunaheadLimit(W, Min(PoolPoints), SpecMaxFut, StopPt))
   \cup Chk("C06_HeldNeverPrepared", (t.st = "preparing" /\ b.st # "preparing") => (~b.held \/ t.manual \/ b.manual))
-  \cup Chk("C32_OnlyWaitingExpires", (t.st = "expired" /\ b.st # "expired" /\ ~ev.forced) => (b.st = "waiting" /\ ~b.manual))
+  \* (not manually triggered: by the flag, and by the spec's own record - named by a trigger command and not
+  \*  prepared since)
+  \cup Chk("C32_OnlyWaitingExpires",
+           (t.st = "expired" /\ b.st # "expired" /\ ~ev.forced) =>
+              (b.st = "waiting" /\ ~b.manual /\ ~(id \in env.trig.ids /\ id \notin env.trig.ran /\ id \notin env.trig.live)))
   \cup Chk("C32_NotBeforeExpiryTime",
            (t.st = "expired" /\ b.st # "expired" /\ ~ev.forced) =>
               (Name(id) \in DOMAIN W.expire /\ env.clock >= W.expire[Name(id)][Pt(id)]))
@@ -116,6 +120,8 @@ StateCov(ev) ==
   \cup Cov("C04_ReleaseWithinLimit", b.rh /\ ~t.rh /\ t.st = "waiting" /\ ~t.manual)
   \cup Cov("C06_HeldNeverPrepared", t.st = "preparing" /\ b.st # "preparing")
   \cup Cov("C32_OnlyWaitingExpires", t.st = "expired" /\ b.st # "expired")
+  \cup Cov("C32_TriggeredTaskPastExpiry", t.id \in env.trig.ids /\ t.id \notin env.trig.ran /\ t.id \notin env.trig.live /\ Name(t.id) \in DOMAIN W.expire
+                                            /\ env.clock >= W.expire[Name(t.id)][Pt(t.id)])
   \cup Cov("C32_NotBeforeExpiryTime", t.st = "expired" /\ b.st # "expired" /\ ~ev.forced)
 
 \* prepare: a task enters job preparation (a job will be submitted)
